@@ -261,7 +261,7 @@ func (g *docGen) value1(t *TypeRef, locDefault, constant, inList bool, depth int
 		if !inList && g.r.Chance(1, 4) {
 			// single item coerced to a list (recursively); null would mean a null list, so skip it
 			item := g.value(n.Of, false, constant, false, depth+1)
-			if item.Kind != "null" && item.Kind != "var" {
+			if item.Kind != "null" && item.Kind != "var" && item.Kind != "list" {
 				return item
 			}
 		}
@@ -433,7 +433,10 @@ func (g *docGen) sels(parent string, depth, owner int) []*GSel {
 	out := []*GSel{}
 	for i := 0; i < n; i++ {
 		g.budget--
+		compatAll := g.v.compatibleTypes(parent)
 		switch c := g.r.Intn(20); {
+		case len(compatAll) == 0:
+			out = append(out, g.field(parent, depth, owner))
 		case c < 3 && depth < g.maxDepth && g.budget > 0:
 			// inline fragment
 			s := &GSel{Kind: "inline", Parent: parent}
